@@ -26,7 +26,9 @@ RULE = ("time lines enumerated from a grid: openHandshakeTimeout, closeHandshake
         "from 2 s before to 1.5 s after its deadline, and - where it coincides with the instant the timer fires - "
         "before the timer, after it, and (asyncio) inside the same loop iteration; the closing handshake started by the "
         "application (sendClose, also from onOpen) and by the LIBRARY failing the connection with failByDrop=False (reserved "
-        "opcode, RSV bit, invalid UTF-8 text, message over maxMessagePayloadSize); races of two timers (close while a "
+        "opcode, RSV bit, invalid UTF-8 text, message over maxMessagePayloadSize); every timer family also with a peer that no "
+        "longer reads while our write buffer is non-empty (graceful transport close never / late completes: the drop must be "
+        "abortive); races of two timers (close while a "
         "ping is pending, auto-ping falling due while CLOSING, peer close while a ping is pending, protocol violation "
         "while a ping is pending, delayed connection-lost after our loseConnection); plus seeded random time lines over "
         "the full option grid. After CLOSED every remaining timer is fired and the clock advanced by one hour. "
@@ -44,7 +46,9 @@ ASSUMPTIONS = [
     "auto-ping cadence is asserted only while OPEN and relative to 'connection opened' / 'previous ping answered'; pings after "
     "an unanswered ping with autoPingTimeout=0 are not demanded",
     "timeout value 0 = timer disabled (documented); then only 'never dropped by that timer' is checked",
-    "transport: abortConnection() delivers connection-lost at once; loseConnection() after lost_delay (unflushed buffer); "
+    "transport: abortConnection()/abort() delivers connection-lost at once; loseConnection()/close() after lost_delay (unflushed "
+    "write buffer; 'never' = peer not reading, the transport only goes away at the horizon); a deadline counts as met when "
+    "connection-lost is deliverable by D, not when the close was requested; "
     "no octets are delivered to the endpoint after it asked the transport to close",
     "the peer sends nothing after its own close frame",
 ]
@@ -56,6 +60,8 @@ DECIDING = {
     "deadline_evaluated_failclose_server": 20, "deadline_evaluated_failclose_client": 20, "responsive_not_dropped_failclose": 10,
     "failclose_kinds": 8,
     # client behind an explicit HTTP proxy: proxy silent or half-answering (STATE_PROXY_CONNECTING) / answered, server silent
+    # timer-initiated drops judged while the write buffer cannot be flushed (only an abortive close ends the connection)
+    "timer_drops_unflushable_buffer": 100, "unflushable_timer_kinds": 7,
     "deadline_evaluated_open_proxy_pending": 20, "deadline_evaluated_open_proxy_answered": 20, "responsive_not_dropped_open_proxy": 10,
     "deadline_evaluated_ping_server": 20, "deadline_evaluated_ping_client": 20,
     "timer_drops_evaluated": 200,
@@ -284,9 +290,54 @@ def fam_races():
                        "horizon": oht + 8}
 
 
-FAMILIES = [("open", fam_open), ("close", fam_close), ("peer-close", fam_peer_close), ("ping", fam_ping), ("races", fam_races)]
+def fam_unflushed():
+    """Peer silent AND no longer reading while our write buffer is not empty (the application queued data / the handshake
+    octets are still unsent): a graceful transport close never completes (lost_delay "never") or completes late.  Every
+    timer-initiated drop must end the connection by its deadline all the same (i.e. be abortive) and be reported."""
+    for role in ("server", "client"):
+        for t0 in T0S:
+            for ld in ("never", 3.0, 0.25):
+                # open handshake
+                for oht in (1, 2, 5):
+                    o = opts_base(openHandshakeTimeout=oht)
+                    b = {"role": role, "opts": o, "t0": t0, "lost_delay": ld, "horizon": oht + 4}
+                    yield dict(b, fam="unflushed/open/silent", acts=[])
+                    yield dict(b, fam="unflushed/open/half", acts=[[0.25, "hs_a"]])
+                    if role == "client":
+                        yield dict(b, fam="unflushed/open/proxy-silent", proxy=True, acts=[])
+                        yield dict(b, fam="unflushed/open/proxy-answered", proxy=True, acts=[[0.25, "px"]])
+                # closing handshake started by the application / by the library failing the connection
+                for cht in (1, 3):
+                    for how in ("api", "bad_utf8", "big"):
+                        onopen, acts0 = _start_close(how, CLOSE_AT)
+                        o = opts_base(closeHandshakeTimeout=cht, serverConnectionDropTimeout=2)
+                        if how != "api":
+                            o.update(failByDrop=False, maxMessagePayloadSize=64)
+                        yield {"fam": "unflushed/close/" + how, "role": role, "opts": o, "t0": t0, "lost_delay": ld,
+                               "acts": [[HS_AT, "hs"], [0.5, "api_send"]] + acts0, "horizon": cht + 6}
+                # client waiting for the server to drop TCP (we initiated / the server initiated)
+                if role == "client":
+                    for scdt in (1, 3):
+                        o = opts_base(closeHandshakeTimeout=5, serverConnectionDropTimeout=scdt)
+                        b = {"role": role, "opts": o, "t0": t0, "lost_delay": ld, "horizon": scdt + 7}
+                        yield dict(b, fam="unflushed/drop/we-initiated",
+                                   acts=[[HS_AT, "hs"], [0.5, "api_send"], [CLOSE_AT, "api_close"], [1.25, "close"]])
+                        yield dict(b, fam="unflushed/drop/peer-initiated", acts=[[HS_AT, "hs"], [0.5, "api_send"], [CLOSE_AT, "close"]])
+                # auto-ping: the ping itself sits behind the queued data
+                for I, T in ((1, 1), (2, 3), (1, 5)):
+                    for restart in (True, False):
+                        o = opts_base(autoPingInterval=I, autoPingTimeout=T, autoPingRestartOnAnyTraffic=restart)
+                        b = {"role": role, "opts": o, "t0": t0, "lost_delay": ld, "acts": [[HS_AT, "hs"], [0.5, "api_send"]],
+                             "horizon": 2 * I + 2 * T + 5}
+                        yield dict(b, fam="unflushed/ping/silent", rules=[])
+                        yield dict(b, fam="unflushed/ping/one-answer-then-silent",
+                                   rules=[{"on": "ping", "delay": 0.25, "do": "pong", "first": 0, "count": 1},
+                                          {"on": "ping", "delay": 0.5, "do": "api_send", "first": 0, "count": 1}])
 
-RKINDS = ["hs", "hs_a", "hs_b", "close", "drop", "drop_clean", "pong", "pong_wrong", "pong_stale", "data", "dataf", "ping", "bad",
+
+FAMILIES = [("unflushed", fam_unflushed), ("open", fam_open), ("close", fam_close), ("peer-close", fam_peer_close), ("ping", fam_ping), ("races", fam_races)]
+
+RKINDS = ["api_send", "hs", "hs_a", "hs_b", "close", "drop", "drop_clean", "pong", "pong_wrong", "pong_stale", "data", "dataf", "ping", "bad",
           "bad_rsv", "bad_utf8", "big", "api_close"]
 
 
@@ -333,7 +384,7 @@ def gen_random(rng):
                           "before": rng.choice((False, False, True, "iter"))})
     case = {"fam": "random", "role": role, "proxy": proxy, "opts": o, "t0": t0, "acts": acts, "rules": rules,
             "onopen": "close" if rng.random() < 0.07 else None,
-            "lost_delay": rng.choice((None, None, 0.25, 1.0, 3.0, 12.0)),
+            "lost_delay": rng.choice((None, None, 0.25, 1.0, 3.0, 12.0, "never")),
             "horizon": t + rng.choice((3, 6, 12, 25))}
     return case
 
@@ -408,7 +459,7 @@ def run_shard(params, R):
         raise RuntimeError("NVX selection mismatch: wanted %s, USES_NVX=%s" % (nvx, W.USES_NVX))
     tier, part, parts, seed = params["tier"], params["part"], params["parts"], params["seed"]
     for k in DECIDING:
-        if k not in ("roles_fw", "failclose_kinds"):
+        if k not in ("roles_fw", "failclose_kinds", "unflushable_timer_kinds"):
             R.count(k, 0)
     # ---- enumerated families.  thorough: all of them; quick / pure: a seed-dependent residue class of each family
     stride = {"quick": 3, "pure": 12, "thorough": 1}[tier]
@@ -446,7 +497,8 @@ MANIFEST_ENTRY = {
     "text": ("Real server and client endpoints (Twisted and asyncio adapters) are run on a virtual clock against a scripted peer; "
              "a deadline book derived only from the configuration and from boundary observations (connection-made, our close "
              "frame / auto-ping on the wire, the peer's scripted reactions) decides online: silent peer => transport closed within "
-             "(D-1 s, D] and onClose(False, 1006, reason naming that timer); peer reacting with >= 1 s to spare => never dropped by "
+             "(D-1 s, D] - and really gone by D even when the write buffer cannot be flushed, i.e. closed abortively - and "
+             "onClose(False, 1006, reason naming that timer); peer reacting with >= 1 s to spare => never dropped by "
              "that timer; while OPEN the next auto-ping is on the wire within (ref+interval-1, ref+interval]; after CLOSED every "
              "remaining timer is fired and one more hour passes without any callback, write, transport call, state or "
              "close-result change. Workload: grid {0,1,2,3,5,10} of the five timeouts x restart-on-traffic x both roles x 3 phases "
